@@ -1138,10 +1138,13 @@ func TestDeepBoundaries(t *testing.T) {
 // the data and reaches few of them.
 func TestOptionalMissMatrix(t *testing.T) {
 	holders := []val.V{val.Bytes([]byte{}), val.Bytes([]byte{7, 9}), val.List(), val.List(val.Int(7), val.Int(9)), val.Str("hé"), val.Str(""),
-		val.Map(), val.Map(val.E("zz", val.Int(7)), val.E("0", val.Int(9))), val.Null(), val.Int(3)}
+		val.Map(), val.Map(val.E("zz", val.Int(7)), val.E("0", val.Int(9))), val.Null(), val.Int(3),
+		// names that differ by the characters a selector quotes names with: each statement is about the key it names
+		val.Map(val.E("rock'", val.Int(7)), val.E("rock", val.Int(9)), val.E("'n'", val.Int(7)), val.E("n", val.Int(9)), val.E(`q\"`, val.Int(7)), val.E("q", val.Int(9))),
+		val.Map(val.E("rock", val.Int(9)), val.E("n", val.Int(9)), val.E("q", val.Int(9)))}
 	ip := func(i int64) *int64 { return &i }
 	tails := []sel.Seg{{Kind: "index", Idx: 0}, {Kind: "index", Idx: 1}, {Kind: "index", Idx: 5}, {Kind: "index", Idx: -1}, {Kind: "index", Idx: -9},
-		{Kind: "field", Name: "zz"}, {Kind: "qfield", Name: "0"}, {Kind: "field", Name: "nope"}, {Kind: "slice", From: ip(0), To: ip(1)}, {Kind: "slice", From: ip(5)}, {Kind: "iter"}}
+		{Kind: "field", Name: "zz"}, {Kind: "qfield", Name: "0"}, {Kind: "field", Name: "nope"}, {Kind: "qfield", Name: "rock'"}, {Kind: "qfield", Name: "'n'"}, {Kind: "qfield", Name: `q\"`}, {Kind: "qfield", Name: "rock"}, {Kind: "slice", From: ip(0), To: ip(1)}, {Kind: "slice", From: ip(5)}, {Kind: "iter"}}
 	seven, zero, str := val.Int(7), val.Int(0), val.Str("x")
 	n := 0
 	for _, hd := range holders {
